@@ -442,7 +442,11 @@ func vfC02eval(c *vfC02Case, st map[string]int) error {
 			if tx.MetaFrames > 1 {
 				st["multi-frame-meta"]++
 			}
-			gtx, err := l.multi.GetTransaction(ctx, &old_faithful_grpc.TransactionRequest{Signature: tx.Sig[:]})
+			var gtx *old_faithful_grpc.TransactionResponse
+			var err error
+			vfWatched(fmt.Sprintf("gRPC GetTransaction(%s) with %d epochs loaded, concurrency %d", tx.Sig, len(l.eps), c.Concurrency), func() {
+				gtx, err = l.multi.GetTransaction(ctx, &old_faithful_grpc.TransactionRequest{Signature: tx.Sig[:]})
+			})
 			if err != nil {
 				return fmt.Errorf("gRPC GetTransaction(%s) with %d epochs loaded failed: %v", tx.Sig, len(l.eps), err)
 			}
@@ -460,7 +464,9 @@ func vfC02eval(c *vfC02Case, st map[string]int) error {
 			}
 		}
 		stream := &vfGetStream{ctx: ctx, in: streamReqs}
-		if err := l.multi.Get(stream); err != nil {
+		var serr error
+		vfWatched(fmt.Sprintf("gRPC Get stream of %d requests with %d epochs loaded, concurrency %d", len(streamReqs), len(l.eps), c.Concurrency), func() { serr = l.multi.Get(stream) })
+		if err := serr; err != nil {
 			return fmt.Errorf("gRPC Get stream failed: %v", err)
 		}
 		if len(stream.out) != len(streamReqs) {
@@ -523,7 +529,8 @@ func vfC02opts() cargen.GenOpts {
 func TestVfC02(t *testing.T) {
 	run := vfh.Begin("C02", "rpc")
 	defer run.End(t)
-	run.Require("epochs>=2", "multi-entry-block", "multi-frame-meta", "epoch0-genesis", "prev-in-same-epoch")
+	run.Require("epochs>=2", "multi-entry-block", "multi-frame-meta", "epoch0-genesis", "prev-in-same-epoch", "epochs>2*concurrency")
+	vfArmWatch(run, "C02")
 	for _, p := range vfh.ReplayFiles("C02", "rpc") {
 		var c vfC02Case
 		if err := vfh.LoadCaseFile(p, &c); err != nil {
@@ -538,7 +545,8 @@ func TestVfC02(t *testing.T) {
 	opts := vfC02opts()
 	rapid.Check(t, func(rt *rapid.T) {
 		c := &vfC02Case{}
-		ne := rapid.IntRange(1, 3).Draw(rt, "epochs")
+		// 1..3 epochs, or up to 6 (more epochs than twice the search concurrency: the epoch search then has to queue jobs)
+		ne := rapid.OneOf(rapid.IntRange(1, 3), rapid.IntRange(3, 6)).Draw(rt, "epochs")
 		used := map[uint64]bool{}
 		for i := 0; i < ne; i++ {
 			s := cargen.Gen(rt, opts)
@@ -566,6 +574,11 @@ func TestVfC02(t *testing.T) {
 			cls = append(cls, "epoch0-genesis")
 		}
 		cls = append(cls, fmt.Sprintf("concurrency:%d", c.Concurrency))
+		if c.Concurrency > 0 && st["epochs"] > 2*c.Concurrency {
+			cls = append(cls, "epochs>2*concurrency")
+		} else if c.Concurrency > 0 && st["epochs"] > c.Concurrency {
+			cls = append(cls, "epochs>concurrency")
+		}
 		nt := st["epochs"] >= 2 && (st["multi-entry-block"] > 0 || st["multi-frame-meta"] > 0)
 		run.Case(c, nt, map[string]any{"epochs": len(c.Specs), "concurrency": c.Concurrency, "stats": st}, cls...)
 		if err != nil {
@@ -582,6 +595,7 @@ func TestVfReplayC02(t *testing.T) {
 	if !vfh.LoadReplay(t, &c) {
 		t.Skip("no VERIF_REPLAY")
 	}
+	vfArmWatch(nil, "C02")
 	if err, _ := vfh.Catch(func() error { return vfC02eval(&c, map[string]int{}) }); err != nil {
 		t.Fatalf("C02 violated: %v", err)
 	}
